@@ -95,7 +95,9 @@ def ctor_info(c):
          "has_user_patterns": any("set_user_patterns" in k.__dict__ for k in c.__mro__ if k not in (encoding.Instruction, encoding.Constructor, object)),
          "has_encode": any("encode" in k.__dict__ for k in c.__mro__ if k not in (encoding.Instruction, encoding.Constructor, object)),
          "has_render": any("render" in k.__dict__ for k in c.__mro__ if k not in (encoding.Instruction, encoding.Constructor, object)),
-         "bases": [b.__name__ for b in c.__mro__[1:-1]]}
+         "bases": [b.__name__ for b in c.__mro__[1:-1]],
+         "flags": {k: getattr(c, k) for k in ("rm_written",) if isinstance(getattr(c, k, None), bool)},
+         "overrides_defined_registers": any("defined_registers" in k.__dict__ for k in c.__mro__ if k not in (encoding.Instruction, encoding.Constructor, object))}
     return d
 
 def collect_ctors(ins_list):
